@@ -2,7 +2,7 @@ import UralModel.Model.Lru
 import UralModel.Model.Fingerprint
 import UralModel.Py.UrlSplit
 /-!
-# Model of the stem variants of `ural/lru/stems.py` (lines 108-120), of `safe_urlsplit`
+# Model of the stem variants of `ural/lru/stems.py` (lines 115-127), of `safe_urlsplit`
 # (`ural/utils.py:53-62`) and of `get_hostname` (`ural/get_hostname.py:11-15`) — property C07
 
 `canonicalized_lru_stems`, `normalized_lru_stems`, `fingerprinted_lru_stems` call the URL
@@ -23,7 +23,7 @@ def httpStr : Str := "http".toList
 def httpsStr : Str := "https".toList
 
 /-- `scheme, netloc, path, query, fragment = parsed_url` for a `SplitResult` assembled by one of
-the URL functions (`fragment` can be `None`: it is only tested for truth, stems.py:81) -/
+the URL functions (`fragment` can be `None`: it is only tested for truth, stems.py:86) -/
 def partsOfSplit (s : Split) : Parts :=
   { scheme := s.scheme, netloc := s.netloc, path := s.path, query := s.query,
     fragment := s.fragment.getD [] }
@@ -31,14 +31,14 @@ def partsOfSplit (s : Split) : Parts :=
 section
 variable (splitSuffix : Str → Option (Str × Str))
 
-/-- `lru_stems(url, suffix_aware)` (stems.py:95-106): `ensure_protocol`, `urlsplit`, stems -/
+/-- `lru_stems(url, suffix_aware)` (stems.py:100-112): `ensure_protocol`, `urlsplit`, stems -/
 def lruStemsOfUrl (split5 : Str → Option Parts) (sa : Bool) (url : Str) : Option (List Str) :=
   (split5 (ensureProtocol url httpStr)).map (lruStems splitSuffix sa)
 
 /-- `lru_stems_from_parsed_url(t, suffix_aware)` for a `SplitResult` of a URL function -/
 def stemsOfSplit (sa : Bool) (t : Split) : List Str := lruStems splitSuffix sa (partsOfSplit t)
 
-/-- `canonicalized_lru_stems(url, suffix_aware)` (stems.py:108-110) with the defaults of
+/-- `canonicalized_lru_stems(url, suffix_aware)` (stems.py:115-117) with the defaults of
 `canonicalize_url` (`default_protocol="https"`, `quoted=False`, `strip_fragment=False`);
 `none` = the `ValueError` of the parser escapes -/
 def canonicalizedLruStems (puny : Str → Str) (parse : Str → Option Parsed) (sa : Bool) (url : Str) :
@@ -46,7 +46,7 @@ def canonicalizedLruStems (puny : Str → Str) (parse : Str → Option Parsed) (
   (parse (Canonicalize.cleanUrl url httpsStr)).map fun p =>
     stemsOfSplit splitSuffix sa (Canonicalize.canonParts puny false false p)
 
-/-- `normalized_lru_stems(url, suffix_aware, **kwargs)` (stems.py:113-115); `none` = the URL is
+/-- `normalized_lru_stems(url, suffix_aware, **kwargs)` (stems.py:120-122); `none` = the URL is
 unparseable (`normalize_url` returned the string) -/
 def normalizedLruStems (puny : Str → Str) (parse : Str → Option Parsed) (platform : Str → Str)
     (o : Normalize.Opts) (inferRedirection sa : Bool) (url : Str) : Option (List Str) :=
@@ -54,7 +54,7 @@ def normalizedLruStems (puny : Str → Str) (parse : Str → Option Parsed) (pla
   | .inl _ => none
   | .inr t => some (stemsOfSplit splitSuffix sa t)
 
-/-- `fingerprinted_lru_stems(url, suffix_aware, strip_suffix=…)` (stems.py:118-120) -/
+/-- `fingerprinted_lru_stems(url, suffix_aware, strip_suffix=…)` (stems.py:125-127) -/
 def fingerprintedLruStems (E : Fingerprint.Env) (sa stripSfx : Bool) (url : Str) :
     Except Fingerprint.Err (List Str) :=
   (Fingerprint.fingerprintUrlSplit E stripSfx url).map (stemsOfSplit splitSuffix sa)
